@@ -302,7 +302,11 @@ class World(object):
             h.off += ev[3]
             self.fault('clock_jump')
         elif kind == 'nop':
-            pass
+            if len(ev) > 2 and ev[2] == 'quiet':
+                # faults stop here: kill points that were armed but have not fired are disarmed
+                for h in self.hosts:
+                    if not h.doomed:
+                        h.fs.kill_at = None
         else:
             out = self.app.apply_event(self, ev)
             if isinstance(out, tuple):
